@@ -26,6 +26,10 @@ func fatalOutcome(jr JobResult) spec.Outcome {
 
 // multiOutcomes returns one outcome per resolution of a multi job, splitting the job if the worker died.
 func (cx *Ctx) multiOutcomes(p *Pool, jr JobResult) []spec.Outcome {
+	if jr.WallCap {
+		cx.WallCapHit = true
+		return nil
+	}
 	if jr.Res != nil && jr.Res.Error == "" && len(jr.Res.Outcomes) == len(jr.Job.Res) {
 		return jr.Res.Outcomes
 	}
